@@ -94,6 +94,23 @@ def digits(spec):
             bad += 1
     if bad:
         return [outcome("digits/model-validation", "inconclusive", detail=f"{bad} sampled pairs disagree with Python")]
+    # does the text-order model describe the comparator that is in /repo now?
+    from ufl import Constant, Mesh, triangle
+    from ufl.sorting import cmp_expr
+
+    from vlib.elements import P
+
+    M = Mesh(P(triangle, 1, (2,)), ufl_id=0)
+    off = 0
+    for _ in range(60):
+        m, n = rng.randrange(10 ** rng.randint(1, D)), rng.randrange(10 ** rng.randint(1, D))
+        if m != n and (cmp_expr(Constant(M, count=m), Constant(M, count=n)) < 0) != (str(m) < str(n)):
+            off += 1
+    if off:
+        return [outcome("digits/model-validation", "rejected", detail=f"cmp_expr orders Constants differently from the text order of "
+                        f"their repr on {off}/60 sampled count pairs: the digit-vector model of repr ordering does not describe "
+                        "the current comparator (the CrossHair shift obligations decide the comparator itself)",
+                        sample="decimal digit-vector model of str(m) < str(n)")]
     res.append(outcome("digits/model-validation", "proved", stage="z3 (40 sampled pairs agree with Python's str <)",
                        sample="decimal digit-vector model of str(m) < str(n)"))
     shift = "(declare-const s Int)\n(assert (and (<= 0 s) (= p (+ m s)) (= q (+ n s)) (< m n)))\n"
@@ -138,7 +155,7 @@ def e2e(spec):
     sigs = {}
     for shift in spec["shifts"]:
         for seed in spec["seeds"]:
-            env = dict(os.environ, PYTHONHASHSEED=str(seed), PYTHONPATH=ROOT)
+            env = dict(os.environ, PYTHONHASHSEED=str(seed), PYTHONPATH=os.environ.get("PYTHONPATH") or ROOT)
             p = subprocess.run([py, os.path.join(ROOT, "units", "c12_build.py"), str(shift)], capture_output=True,
                                text=True, env=env, timeout=300)
             line = [l for l in p.stdout.splitlines() if l.startswith("SIGS ")]
